@@ -43,7 +43,7 @@ type Solver struct {
 	timeoutMs int
 	Stats     SolverStats
 	lastErr   string
-	emittedBy []*Term // terms whose emitted flag we set (reset on restart)
+	levels    [][]*Term // terms declared/defined at each push level (popped with it)
 	logw      io.Writer
 }
 
@@ -62,7 +62,7 @@ func (s *Solver) start() error {
 		cmd = exec.Command(s.kind, "-in", "-smt2")
 	case "cvc5":
 		cmd = exec.Command("cvc5", "--incremental", "--lang=smt2", "--produce-models",
-			"--global-declarations", fmt.Sprintf("--tlimit-per=%d", s.timeoutMs))
+			fmt.Sprintf("--tlimit-per=%d", s.timeoutMs))
 	default:
 		return fmt.Errorf("unknown solver %q", s.kind)
 	}
@@ -80,9 +80,10 @@ func (s *Solver) start() error {
 	}
 	s.cmd, s.in, s.out = cmd, in, bufio.NewReaderSize(out, 1<<16)
 	s.asserted = nil
+	s.levels = nil
 	var sb strings.Builder
 	if s.kind != "cvc5" {
-		sb.WriteString("(set-option :global-declarations true)\n(set-option :produce-models true)\n")
+		sb.WriteString("(set-option :produce-models true)\n")
 		fmt.Fprintf(&sb, "(set-option :timeout %d)\n", s.timeoutMs)
 	} else {
 		sb.WriteString("(set-logic QF_BV)\n")
@@ -111,14 +112,12 @@ func (s *Solver) restart() {
 		s.cmd.Process.Kill()
 		s.cmd.Wait()
 	}
-	for _, t := range s.emittedBy {
-		t.emitted = false
+	for _, lv := range s.levels {
+		for _, t := range lv {
+			t.emitted = false
+		}
 	}
-	s.emittedBy = nil
-	// constants/vars flagged emitted in emitDefs: clear through table
-	for _, t := range s.tt.tab {
-		t.emitted = false
-	}
+	s.levels = nil
 	if err := s.start(); err != nil {
 		panic(engineError{"solver restart failed: " + err.Error()})
 	}
@@ -150,18 +149,33 @@ func (s *Solver) roundtrip(text string) ([]string, error) {
 }
 
 // sync brings the solver's assertion stack to exactly pc.
+func (s *Solver) popLevels(n int, sb *strings.Builder) {
+	if n <= 0 {
+		return
+	}
+	fmt.Fprintf(sb, "(pop %d)\n", n)
+	for i := 0; i < n; i++ {
+		lv := s.levels[len(s.levels)-1]
+		for _, t := range lv {
+			t.emitted = false
+		}
+		s.levels = s.levels[:len(s.levels)-1]
+	}
+}
+
 func (s *Solver) syncText(pc []*Term, sb *strings.Builder) {
 	n := 0
 	for n < len(pc) && n < len(s.asserted) && pc[n] == s.asserted[n] {
 		n++
 	}
-	if pops := len(s.asserted) - n; pops > 0 {
-		fmt.Fprintf(sb, "(pop %d)\n", pops)
-	}
+	s.popLevels(len(s.asserted)-n, sb)
 	s.asserted = s.asserted[:n]
 	for _, t := range pc[n:] {
-		emitDefs(t, sb)
-		fmt.Fprintf(sb, "(push 1)\n(assert %s)\n", ref(t))
+		sb.WriteString("(push 1)\n")
+		var rec []*Term
+		emitDefs(t, sb, &rec)
+		fmt.Fprintf(sb, "(assert %s)\n", ref(t))
+		s.levels = append(s.levels, rec)
 		s.asserted = append(s.asserted, t)
 	}
 }
@@ -175,10 +189,12 @@ func (s *Solver) Check(pc []*Term, extra []*Term, wantModel bool) (SatResult, ma
 	s.Stats.Queries++
 	var sb strings.Builder
 	s.syncText(pc, &sb)
-	for _, e := range extra {
-		emitDefs(e, &sb)
-	}
 	sb.WriteString("(push 1)\n")
+	var rec []*Term
+	for _, e := range extra {
+		emitDefs(e, &sb, &rec)
+	}
+	s.levels = append(s.levels, rec)
 	for _, e := range extra {
 		fmt.Fprintf(&sb, "(assert %s)\n", ref(e))
 	}
@@ -215,7 +231,9 @@ func (s *Solver) Check(pc []*Term, extra []*Term, wantModel bool) (SatResult, ma
 			res = Unknown
 		}
 	}
-	if _, err := s.roundtrip("(pop 1)\n"); err != nil {
+	var pb strings.Builder
+	s.popLevels(1, &pb)
+	if _, err := s.roundtrip(pb.String()); err != nil {
 		s.restart()
 	}
 	switch res {
